@@ -331,6 +331,7 @@ type Prelude struct {
 	order []string
 	funs  map[string]funSig
 	sorts map[string]bool
+	sortFile map[string]string
 	used  map[*VC]map[string]bool
 }
 
@@ -369,6 +370,14 @@ func (p *Prelude) textFor(vc *VC) string {
 	}
 	for f := range p.used[vc] {
 		add(f)
+	}
+	// theories whose sorts occur in the declarations of this VC
+	for _, d := range vc.decls {
+		for sortName, f := range p.sortFile {
+			if strings.Contains(d, sortName) {
+				add(f)
+			}
+		}
 	}
 	for _, u := range vc.P.spec.Uses {
 		add(u)
@@ -447,7 +456,7 @@ func (p *Prelude) inconsistent(scratch string) string {
 }
 
 func loadPrelude(dir string) (*Prelude, error) {
-	p := &Prelude{files: map[string]*preludeFile{}, funs: map[string]funSig{}, sorts: map[string]bool{}, used: map[*VC]map[string]bool{}}
+	p := &Prelude{files: map[string]*preludeFile{}, funs: map[string]funSig{}, sorts: map[string]bool{}, sortFile: map[string]string{}, used: map[*VC]map[string]bool{}}
 	names, _ := filepath.Glob(filepath.Join(dir, "*.smt2"))
 	sort.Strings(names)
 	for _, path := range names {
@@ -608,6 +617,7 @@ func parseDatatype(s, file string, p *Prelude) {
 	for i, decl := range n.kids[1].kids {
 		sortName := decl.kids[0].atom
 		p.sorts[sortName] = true
+		p.sortFile[sortName] = file
 		for _, ctor := range n.kids[2].kids[i].kids {
 			if ctor.kids == nil {
 				p.funs[ctor.atom] = funSig{res: sortName, file: file}
